@@ -34,7 +34,7 @@ def _expiry_view(t):
 
 
 def _run(repo, chk):
-    chk.not_decided = ['numeric timing; datetime deadlines are rounded by mktime/timetuple (whole seconds)',
+    chk.not_decided = ['numeric timing (datetime deadlines are rounded down to whole seconds)',
                        'that the OS wait does not return late']
     chk.rule('C09.a', 'the timer fires only under now >= expiry, where now = time() of the same handler invocation')
     chk.rule('C09.b', 'each fire is followed by reset() iff persistent else unregister(); no fire while unregistration is pending')
@@ -92,6 +92,17 @@ def _run(repo, chk):
         p = Q.escapes(g, [f], lambda n: n in unregs, avoid_edge=persist_T)
         chk.ob('b', t.ref, 'a one-shot timer removes itself after firing on every path', p is None and bool(unregs), loc(t, f.ast),
                path=pat.path_lines(p, f) if p else None, discr='oneshot-removed')
+        # … and is disarmed: unregister() does nothing for a timer that is the root of its tree (and takes effect a flush later otherwise); what keeps a
+        # fired one-shot from firing again is that it has no expiry any more
+        disarm = [n for n in g.nodes if n.kind == 'stmt' and any(r == 'self' and a in ('expiry', '_expiry') and pat.is_const(v, None) for r, a, v in pat.attr_store(n.ast))]
+        p = Q.escapes(g, [f], lambda n: n in disarm, avoid_edge=persist_T)
+        chk.ob('b', t.ref, 'a one-shot timer that has fired has no expiry any more on every path (it cannot fire a second time, registered or not)', p is None and bool(disarm),
+               loc(t, f.ast), path=pat.path_lines(p, f) if p else None, discr='oneshot-disarmed')
+        # every beat of a persistent timer is an event of its own: an event object carries the state of its dispatch (stopped, cancelled, waiting handlers)
+        fired = [e for _c, _r, e in pat.fire_calls(f.ast)]
+        same = [e for e in fired if src(e) in ('self.event',)]
+        chk.ob('b', t.ref, 'each firing dispatches a fresh event object (a stop() or cancel() of one beat must not silence the following beats)', not same, loc(t, f.ast),
+               detail='fires the stored object `self.event` itself', discr='fresh-event-per-beat')
         p = Q.escapes(g, [f], lambda n: n in resets, avoid_edge=persist_F)
         chk.ob('b', t.ref, 'a persistent timer is re-armed after firing on every path', p is None and bool(resets), loc(t, f.ast),
                path=pat.path_lines(p, f) if p else None, discr='persistent-rearmed')
@@ -126,9 +137,16 @@ def _run(repo, chk):
     ip = r.params[1]
     ivs = [n for n in gr.nodes if n.kind == 'stmt' and 'self' in pat.stores_attr(n.ast, 'interval')]
     plain = [n for n in ivs if src(n.ast.value) == ip]
-    dt = [n for n in ivs if 'mktime' in src(n.ast.value) and 'time()' in src(n.ast.value)]
+    dt = [n for n in ivs if n not in plain and 'time()' in src(n.ast.value) and isinstance(n.ast.value, ast.BinOp) and isinstance(n.ast.value.op, ast.Sub)]
     chk.ob('c', r.ref, 'a numeric interval is stored unchanged; a datetime deadline becomes deadline − now', bool(plain) and bool(dt), loc(r, r.node),
            discr='interval-forms')
+    # the deadline is an instant: it is converted with the datetime's own timestamp() (which honours tzinfo and fold), not through its broken-down local
+    # fields (timetuple() drops both)
+    for n in dt:
+        txt = src(n.ast.value.left).replace(' ', '')
+        okd = f'{ip}.timestamp()' in txt and 'timetuple' not in txt
+        chk.ob('c', r.ref, 'an absolute deadline is converted with timestamp() (time zone and fold honoured), rounded down to whole seconds', okd and
+               any(call_name(c) in ('floor', 'math.floor', 'int') for c in calls_in(n.ast.value.left)), loc(r, n.ast), detail=f'`{src(n.ast.value)}`', discr='deadline-is-an-instant')
     for n in plain:
         q = pat.guarded_by(gr, n, pat.test_edge(lambda tt, pol: pat.fact_matches(pat.compare_fact(tt, pol), ip, ('is not', '!='), 'None')))
         chk.ob('c', r.ref, 'reset() without argument keeps the interval', q is None, loc(r, n.ast), discr='interval-kept')
